@@ -45,47 +45,48 @@ Definition render_kind (sd : sdoc N) (k : rkind) : str :=
   | KName pre post => pre ++ s_name sd ++ post
   end.
 
-(* [force] = every result reports its document's position (the variant in which
-   the evaluator stamps parentless results; see the second fix candidate) *)
-Definition mk_res (force : bool) (sd : sdoc N) (r : rspec) : res str :=
-  mkRes (if rs_att r || force then s_doc sd else 0) (if rs_att r || force then s_file sd else 0)
-        (if rs_lead r then s_lead sd else []) (render_kind sd (rs_kind r)).
+(* a result: (has no Parent, encoded bytes); a parentless node reports document 0 / file 0 *)
+Definition mk_res (sd : sdoc N) (r : rspec) : res (bool * str) :=
+  mkRes (if rs_att r then s_doc sd else 0) (if rs_att r then s_file sd else 0)
+        (if rs_lead r then s_lead sd else []) (negb (rs_att r), render_kind sd (rs_kind r)).
+
+Definition parentless_inst (r : res (bool * str)) : bool := fst (r_val r).
 
 (* one selector over the context, document by document *)
-Fixpoint sel_docs (force : bool) (tb : table) (s : nat) (ds : list (sdoc N)) : option (list (res str)) :=
+Fixpoint sel_docs (tb : table) (s : nat) (ds : list (sdoc N)) : option (list (res (bool * str))) :=
   match ds with
   | [] => Some []
   | sd :: ds' =>
       match nth s (lookup tb (s_body sd)) None with
       | None => None
       | Some rs =>
-          match sel_docs force tb s ds' with
+          match sel_docs tb s ds' with
           | None => None
-          | Some rest => Some (List.map (mk_res force sd) rs ++ rest)
+          | Some rest => Some (List.map (mk_res sd) rs ++ rest)
           end
       end
   end.
 
 (* union: first selector over all documents, then the second, ... *)
-Fixpoint sels (force : bool) (tb : table) (ss : list nat) (ds : list (sdoc N)) : option (list (res str)) :=
+Fixpoint sels (tb : table) (ss : list nat) (ds : list (sdoc N)) : option (list (res (bool * str))) :=
   match ss with
   | [] => Some []
   | s :: ss' =>
-      match sel_docs force tb s ds with
+      match sel_docs tb s ds with
       | None => None
-      | Some a => match sels force tb ss' ds with None => None | Some b => Some (a ++ b) end
+      | Some a => match sels tb ss' ds with None => None | Some b => Some (a ++ b) end
       end
   end.
 
-Definition ev_inst (force : bool) (tb : table) (nsel : nat) (_ : unit) (ds : list (sdoc N)) : option (list (res str)) * unit :=
-  (sels force tb (seq 0 nsel) ds, tt).
+Definition ev_inst (tb : table) (nsel : nat) (_ : unit) (ds : list (sdoc N)) : option (list (res (bool * str))) * unit :=
+  (sels tb (seq 0 nsel) ds, tt).
 
 (* leading lines that yaml.v3 reads itself end up as a head comment: a different body *)
 Definition has_line (l : list litem) : bool := existsb (fun it => match it with LLine _ => true | LSep => false end) l.
 Definition absorb_inst (l : list litem) (b : N) : N := if has_line l then b + 1000 else b.
 
 (* NUL-separated mode refuses a chunk that contains a NUL byte *)
-Definition pfail_inst (cfg : pcfg) (r : res str) : bool := nul_sep cfg && existsb (N.eqb 0) (r_val r).
+Definition pfail_inst (cfg : pcfg) (r : res (bool * str)) : bool := nul_sep cfg && existsb (N.eqb 0) (snd (r_val r)).
 
 (* ---------------- bytes ---------------- *)
 Definition sep_bytes : str := [45; 45; 45; 10].
@@ -100,29 +101,29 @@ Definition strip_eol (s : str) : str :=
   end.
 
 (* plain mode: events in order *)
-Fixpoint render_plain (es : list (event str)) : str :=
+Fixpoint render_plain (es : list (event (bool * str))) : str :=
   match es with
   | [] => []
   | Sep :: es' => sep_bytes ++ render_plain es'
   | LeadSep :: es' => sep_bytes ++ render_plain es'
   | LeadLine t :: es' => t ++ render_plain es'
-  | Res _ _ _ v :: es' => v ++ render_plain es'
+  | Res _ _ _ v :: es' => snd v ++ render_plain es'
   | Nul :: es' => 0 :: render_plain es'
   end.
 
 (* NUL mode: the printer's separator goes to the writer directly; leading
    content and node are collected, the last EOL removed, NUL appended *)
-Fixpoint render_nul (chunk : str) (es : list (event str)) : str :=
+Fixpoint render_nul (chunk : str) (es : list (event (bool * str))) : str :=
   match es with
   | [] => chunk
   | Sep :: es' => chunk ++ sep_bytes ++ render_nul [] es'
   | LeadSep :: es' => render_nul (chunk ++ sep_bytes) es'
   | LeadLine t :: es' => render_nul (chunk ++ t) es'
-  | Res _ _ _ v :: es' => render_nul (chunk ++ v) es'
+  | Res _ _ _ v :: es' => render_nul (chunk ++ snd v) es'
   | Nul :: es' => strip_eol chunk ++ 0 :: render_nul [] es'
   end.
 
-Definition render (cfg : pcfg) (es : list (event str)) : str :=
+Definition render (cfg : pcfg) (es : list (event (bool * str))) : str :=
   if nul_sep cfg then render_nul [] es else render_plain es.
 
 Record ccase := mkCase {
@@ -134,7 +135,9 @@ Record ccase := mkCase {
 }.
 
 (* status byte (0 = exit 0, 1 = error) followed by stdout *)
-Definition run_case (fixp force : bool) (c : ccase) : str :=
+Definition run_case (c : ccase) : str :=
   let cfg := c_cfg c in
-  let r := (if c_all c then run_all else run_seq) 0 absorb_inst (pfail_inst cfg) (ev_inst (force && negb (c_all c)) (c_table c) (c_nsel c)) tt cfg fixp (c_files c) in
+  let r := if c_all c
+           then run_all 0 absorb_inst (pfail_inst cfg) (ev_inst (c_table c) (c_nsel c)) tt cfg (c_files c)
+           else run_seq 0 absorb_inst (pfail_inst cfg) parentless_inst (ev_inst (c_table c) (c_nsel c)) tt cfg (c_files c) in
   (match snd r with Done => 48 | Failed => 49 end) :: render cfg (fst r).
